@@ -108,7 +108,7 @@ def check_c20(v: Verdict, tier):
     rng = random.Random(v.seed * 7919 + 20)
     cases = []
     meta = []
-    hist = {"cells": 0, "converter_classes": 0, "observations": 0, "f15_hits": 0, "default_checks": 0}
+    hist = {"cells": 0, "converter_classes": 0, "observations": 0, "f15_hits": 0, "default_checks": 0, "user_built_hooks": 0}
     shapes = [(0, 0), (0, 2), (1, 2), (2, 2)] if tier == "quick" else [(p, n) for n in range(0, 4) for p in range(0, n + 1)]
     configs = []
     for full in (True, False):
@@ -174,6 +174,28 @@ def check_c20(v: Verdict, tier):
                             v.finding("F15", "Converter raises where BaseConverter falls back to the raw value (lazily failing container hook)", rp)
                         else:
                             v.violation("field converter / structure hook composition differs from the documented rule", rp)
+                    # the same class through a hook the USER builds with make_dict_structure_fn(cl, conv, ...): every option left at
+                    # "from_converter" must resolve to the converter's own setting, whichever of the others is passed explicitly
+                    if generated and tk != "TGeneric":
+                        from cattrs.gen import make_dict_structure_fn
+                        explicit_all = {"_cattrs_forbid_extra_keys": False, "_cattrs_detailed_validation": dv, "_cattrs_prefer_attrib_converters": prefer}
+                        subsets = [()] + [c for r in (1, 2, 3) for c in itertools.combinations(sorted(explicit_all), r)]
+                        if tier == "quick":
+                            subsets = [()] + rng.sample(subsets[1:], 2)
+                        for sub in subsets:
+                            conv2 = Converter(prefer_attrib_converters=prefer, detailed_validation=dv, unstruct_strat=strat)
+                            conv2.register_structure_hook(Sup, lambda val, _: ("H", val))
+                            try:
+                                hook = make_dict_structure_fn(cl, conv2, **{k: explicit_all[k] for k in sub})
+                                obs2 = classify(hook(payload, cl).target, raw, cl if tk == "TRecursive" else None, hooked)
+                            except Exception:
+                                obs2 = "VFail"
+                            hist["user_built_hooks"] += 1
+                            v.count(repr((desc, sub)), True)
+                            if obs2 != obs:
+                                v.violation("a hook built with make_dict_structure_fn(cl, converter) treats the field differently from the converter's own hook",
+                                            {"lane": "FIELD/C20", **desc, "explicit_options": list(sub), "converter_hook": obs, "user_built_hook": obs2,
+                                             "documented": want})
                     # absent key + default: the default goes through the converter only (attrs), never through the hook
                     if with_default and strat is UnstructureStrategy.AS_DICT and tk != "TRecursive":
                         hist["default_checks"] += 1
